@@ -555,7 +555,7 @@ func c16aMinutes(ds ...time.Duration) []int64 {
 const c16aRule = "one case = refresh.timer from the menu x start date x position of now relative to the first windows on/after that date (1 min before opening, at opening, middle, at closing, 1 min after, middle of the gap to the following window) x age of the last refresh, run on a fresh state + autoRefresh (family 'single'); family 'retimed' = ordered pairs of different menu timers set one after the other on the same autoRefresh at the same instant, judged after both Ensure calls. Non-trivial = now is not inside a window in which a refresh is due, so Ensure has to choose between the next window, the limit and an overdue refresh"
 
 func TestVerifC16auto(t *testing.T) {
-	r := eng.Start("C16", "exploration", 60*time.Second, 5*time.Minute)
+	r := eng.Start("C16", "exploration", 60*time.Second, 8*time.Minute)
 	r.Assume(
 		"maximum postponement = last-refresh + 95 days (the number is read off snapstate.maxPostponement; everything else about the limit comes from the statement: the refresh happens at the limit when it comes before the next window, immediately when the limit is past)",
 		"meaning of the menu timers: hand-written window lists (weekday sets, nth/last weekday of the month, /N written out as N equal consecutive windows, a single time = zero-length window), laid out on the UTC calendar; the parser is only asked to accept each menu timer",
